@@ -498,6 +498,14 @@ def predicate(c, obs):
                     return "a second validation changed or rejected the recorded seeds (%s, %s)" % (rv, rvb)
             elif tag == 1:
                 code = r.next()
+                if mode < 2:
+                    # the same validation asked again on the same set: a refusal records nothing
+                    t2 = r.next()
+                    c2 = r.next() if t2 in (0, 1) else None
+                    if not want and t2 == 0:
+                        return "validation with %s was refused, then ACCEPTED when asked again on the same set (recorded bump %s)" % (what, c2)
+                    if (t2, c2) != (1, code):
+                        return "validation with %s was refused with %s, asking again gave %s" % (what, code, (t2, c2))
                 if want:
                     return "validation with %s rejected the derived address (error %s)" % (what, code)
                 if mode in (0, 3) and found is not None and code != E_MISMATCH:
